@@ -12,6 +12,7 @@ import (
 	"os"
 	"reflect"
 	"runtime/debug"
+	"strings"
 	"testing"
 	"time"
 
@@ -50,6 +51,29 @@ var (
 	vType    interface{} = 42
 	vIP                  = net.IP{10, 0, 0, 1}
 )
+
+var (
+	vEsc        = "q\"uote\\ back\nnew\ttab \x01ctl é😀 \xff invalid and then some more plain text"
+	vLong       = strings.Repeat("long plain text ", 12)
+	vStrsEsc    = []string{vEsc, "a\"b", "plain"}
+	vBytesEsc   = []byte(vEsc)
+	vBytesLong  = []byte(strings.Repeat("0123456789abcdef", 6))
+	vErrEsc     = errors.New(vEsc)
+	vRawLong    = []byte(`{"r":[1,2,3,{"x":"` + strings.Repeat("y", 80) + `"}]}`)
+	vTimeZone   = time.Date(2021, 3, 4, 5, 6, 7, 123456789, time.FixedZone("X", 3*3600+1800))
+	vTimesZone  = []time.Time{vTimeZone, vTime}
+	vF32sExp    = []float32{1e-30, 3e30, 0.1}
+	vIntsLong   = []int{-9223372036854775808, 9223372036854775807, 0, 1, 2, 3, 4, 5, 6, 7, 8, 9, 10, 11, 12, 13, 14, 15, 16, 17, 18, 19, 20, 21, 22, 23, 24, 25}
+	vU64Big     = []uint64{1 << 63, 18446744073709551615}
+	vDursMany   = []time.Duration{1, -1, time.Hour, 1500 * time.Microsecond, 0}
+	vObjNested  = &nestedObj{}
+)
+
+type nestedObj struct{}
+
+func (*nestedObj) MarshalZerologObject(e *zerolog.Event) {
+	e.Str("s", vEsc).Dict("d", zerolog.Dict().Int("i", 1)).Array("a", zerolog.Arr().Int(1).Str("x"))
+}
 
 func fn(e *zerolog.Event) { e.Str("in", "func") }
 
@@ -105,6 +129,28 @@ func methods() []method {
 		{"RawJSON", func(e *zerolog.Event) *zerolog.Event { return e.RawJSON("k", vRaw) }, func(a *zerolog.Array) *zerolog.Array { return a.RawJSON(vRaw) }},
 		{"Type", func(e *zerolog.Event) *zerolog.Event { return e.Type("k", vType) }, nil},
 		{"Func", func(e *zerolog.Event) *zerolog.Event { return e.Func(fn) }, nil},
+		// the same methods with values of other classes: escapes, non-ASCII, invalid UTF-8, 40-200 bytes
+		{"Str/esc", func(e *zerolog.Event) *zerolog.Event { return e.Str("k\"ey\n", vEsc) }, func(a *zerolog.Array) *zerolog.Array { return a.Str(vEsc) }},
+		{"Str/long", func(e *zerolog.Event) *zerolog.Event { return e.Str("k", vLong) }, func(a *zerolog.Array) *zerolog.Array { return a.Str(vLong) }},
+		{"Strs/esc", func(e *zerolog.Event) *zerolog.Event { return e.Strs("k", vStrsEsc) }, nil},
+		{"Bytes/esc", func(e *zerolog.Event) *zerolog.Event { return e.Bytes("k", vBytesEsc) }, func(a *zerolog.Array) *zerolog.Array { return a.Bytes(vBytesEsc) }},
+		{"Bytes/long", func(e *zerolog.Event) *zerolog.Event { return e.Bytes("k", vBytesLong) }, func(a *zerolog.Array) *zerolog.Array { return a.Bytes(vBytesLong) }},
+		{"Hex/long", func(e *zerolog.Event) *zerolog.Event { return e.Hex("k", vBytesLong) }, func(a *zerolog.Array) *zerolog.Array { return a.Hex(vBytesLong) }},
+		{"Err/esc", func(e *zerolog.Event) *zerolog.Event { return e.Err(vErrEsc) }, func(a *zerolog.Array) *zerolog.Array { return a.Err(vErrEsc) }},
+		{"AnErr/esc", func(e *zerolog.Event) *zerolog.Event { return e.AnErr("k", vErrEsc) }, nil},
+		{"RawJSON/long", func(e *zerolog.Event) *zerolog.Event { return e.RawJSON("k", vRawLong) }, func(a *zerolog.Array) *zerolog.Array { return a.RawJSON(vRawLong) }},
+		{"Time/zone", func(e *zerolog.Event) *zerolog.Event { return e.Time("k", vTimeZone) }, func(a *zerolog.Array) *zerolog.Array { return a.Time(vTimeZone) }},
+		{"Times/zone", func(e *zerolog.Event) *zerolog.Event { return e.Times("k", vTimesZone) }, nil},
+		{"Float64/exp", func(e *zerolog.Event) *zerolog.Event { return e.Float64("k", 1.5e300) }, func(a *zerolog.Array) *zerolog.Array { return a.Float64(-2.5e-300) }},
+		{"Float32/exp", func(e *zerolog.Event) *zerolog.Event { return e.Float32("k", 1e-30) }, func(a *zerolog.Array) *zerolog.Array { return a.Float32(3e30) }},
+		{"Floats32", func(e *zerolog.Event) *zerolog.Event { return e.Floats32("k", vF32sExp) }, nil},
+		{"Ints/long", func(e *zerolog.Event) *zerolog.Event { return e.Ints("k", vIntsLong) }, nil},
+		{"Uints64/big", func(e *zerolog.Event) *zerolog.Event { return e.Uints64("k", vU64Big) }, nil},
+		{"Durs/many", func(e *zerolog.Event) *zerolog.Event { return e.Durs("k", vDursMany) }, nil},
+		{"Dict/nested", func(e *zerolog.Event) *zerolog.Event {
+			return e.Dict("k", zerolog.Dict().Str("a", vEsc).Dict("in", zerolog.Dict().Int("c", 1)).Array("arr", zerolog.Arr().Str(vEsc).Dict(zerolog.Dict().Bool("b", true))))
+		}, nil},
+		{"Object/nested", func(e *zerolog.Event) *zerolog.Event { return e.Object("k", vObjNested) }, func(a *zerolog.Array) *zerolog.Array { return a.Object(vObjNested) }},
 	}
 }
 
@@ -134,6 +180,9 @@ func main() {
 	// the statement's set must exist in the API (reflection), else UNMAPPED
 	et := reflect.TypeOf((*zerolog.Event)(nil))
 	for _, m := range ms {
+		if strings.Contains(m.name, "/") {
+			continue
+		}
 		if _, ok := et.MethodByName(m.name); !ok {
 			r.Extra["UNMAPPED:"+m.name] = "method named in the statement not found"
 		}
@@ -228,6 +277,9 @@ func main() {
 		for i := range ms {
 			if arr && ms[i].arr == nil {
 				continue
+			}
+			if strings.Contains(ms[i].name, "/") && len(chain) >= 2 {
+				continue // value-class variants: alone, and in every position of pairs
 			}
 			rec(append(append([]int{}, chain...), i), arr)
 		}
